@@ -60,6 +60,18 @@ def cases(tier, seed):
             sp2["irr"]["kw"].pop("MaxIrrSeason", None)
             sp2["irr"]["kw"].pop("MaxIrr", None)
             sp = sp2
+        if i % 10 == 6 and not thermal:
+            # an equable climate whose coldest night stays just above the crops' lower pollination
+            # threshold while flowering nights are cool enough to matter: anything decided from the
+            # extremes of the whole record changes when a frost arrives after the cut
+            sp["weather"] = {"kind": "synth", "seed": int(rng.integers(0, 2 ** 31 - 1)), "regime": "temperate",
+                             "params": {"tm": 13.6, "amp": 0.5, "tnoise": 0.2, "dtr": 14.0, "pstorm": 0.0}}
+            sp["crop"]["name"] = gen.pick(rng, ["Maize", "Sunflower", "Sorghum", "Tomato"])
+            sp["crop"]["kw"].pop("PolColdStress", None)
+            sp["irr"] = {"method": 1, "kw": {"SMT": [70.0] * 4}, "schedule": None}
+            force_kind = 2
+        else:
+            force_kind = None
         if i % 9 == 7:
             # a water-table record that goes on after the end date: its later part is configuration,
             # not something the end date may switch on or off
@@ -68,6 +80,11 @@ def cases(tier, seed):
             sp["gw"] = {"method": "Variable",
                         "dates": [sp["start"], gen.fmt(s0 + dt.timedelta(days=60)), gen.fmt(e0 + dt.timedelta(days=int(gen.pick(rng, [20, 100, 300]))))],
                         "values": [v0, round(v0 + 0.3, 2), round(v0 + float(gen.pick(rng, [-0.5, 0.9])), 2)]}
+        if thermal and sp["weather"]["kind"] == "synth" and i % 2 == 0:
+            # warm and cool years, default latest harvest date: whatever the model derives that
+            # date from must not be something the end date or later weather can change
+            sp["weather"].setdefault("params", {})["interannual"] = float(gen.pick(rng, [2.5, 4.0]))
+            sp["crop"]["harvest"] = None
         if i % 6 == 3:
             # "constant at the level of the first simulated year": nothing later may enter that level
             sp["co2"] = {"constant_auto": True}
@@ -75,7 +92,7 @@ def cases(tier, seed):
             # one day of extreme evaporative demand in the first season: anything derived from
             # statistics of the whole record (which the end date and later weather change) shows
             gen.et0_spike(rng, sp)
-        out.append({"spec": sp, "seed": int(rng.integers(0, 2 ** 31 - 1))})
+        out.append({"spec": sp, "seed": int(rng.integers(0, 2 ** 31 - 1)), "force_kind": force_kind})
     return out
 
 
@@ -164,6 +181,8 @@ def run_case(case):
             sp2 = copy.deepcopy(spec)
             day = S0 + dt.timedelta(days=tstar)
             kind = int(rng.integers(0, 4))
+            if case.get("force_kind") is not None:
+                kind = int(case["force_kind"])
             if kind == 0:
                 sp2["weather"]["switch"] = {"from": gen.fmt(day), "to": {"kind": "synth", "seed": int(rng.integers(0, 2 ** 31 - 1)),
                                                                           "regime": gen.pick(rng, gen.ALL_REGIMES)}}
